@@ -261,7 +261,10 @@ def unit_initialize_workers(sess, ctx):
               "join_detections": Fl(Real("j")) if has_j else None, "export_format": Opq(tag="T"),
               "save_detections_as": Opq(tag="str") if has_o else None, "echo": echo, "progress_bar": False,
               "command": Opq(tag="str") if cmd else None, "quiet": quiet, "printf": printf, "time_format": tf,
-              "timestamp_format": tsf, "min_dur": Opq(tag="n"), "block_dur": Opq(tag="a")}
+              "timestamp_format": tsf, "min_dur": Opq(tag="n"), "block_dur": Opq(tag="a"),
+              # the other options split() reads for a reader input (make_kwargs files use_channel under the io group)
+              "max_dur": Opq(tag="m"), "max_silence": Opq(tag="s"), "drop_trailing_silence": Opq(tag="d"),
+              "strict_min_dur": Opq(tag="R"), "energy_threshold": Opq(tag="e"), "use_channel": Opq(tag="u")}
         res = eng.run_function(ctx.fi(QL + "initialize_workers"), [], dict(kw))
         names = [x[0] for x in log]
         rd = [x for x in log if x[0] == "AudioReader"]
@@ -309,7 +312,8 @@ def unit_initialize_workers(sess, ctx):
             pw = [x for x in log if x[0] == "PrintWorker"][0]
             eng.prove("C15:init_workers:print-worker-gets-printf(escapes-expanded)-and-time-format",
                       pw[1][0] == "{id} \u2192 {start}\t{end}\n d\u00e9tection" and pw[1][1] is tf and pw[1][2] is tsf, props=P15)
-        eng.prove("C15:init_workers:split-options-reach-the-tokenizer-worker", tkw.get("min_dur") is kw["min_dur"], props=P15)
+        for K in ("min_dur", "max_dur", "max_silence", "drop_trailing_silence", "strict_min_dur", "energy_threshold", "use_channel"):
+            eng.prove("C15:init_workers:option-%s-reaches-the-tokenizer-worker" % K, tkw.get(K) is kw[K], props=P15)
         return None
     sess.run_unit(u, eng, run_)
     return u
